@@ -869,7 +869,7 @@ fn now<T>(fut: impl std::future::Future<Output = T>) -> T {
 /// Reads the PDU back from its wire bytes and compares every public accessor
 /// of the value with the generated fields ("yields the same item, action,
 /// version, session and serial").
-fn accessor_audit(p: &WirePdu) -> Result<(), Violation> {
+fn accessor_audit(p: &WirePdu, invalid_body: bool) -> Result<(), Violation> {
     let enc = p.encode();
     let site = format!("accessors/type-{}", p.type_code());
     let bad = |what: &str, got: String, want: String| {
@@ -932,7 +932,12 @@ fn accessor_audit(p: &WirePdu) -> Result<(), Violation> {
                 eq!("timing", eod.timing().map(|t| (t.refresh, t.retry, t.expire)), *timing);
             }
             WirePdu::Ipv4 { .. } | WirePdu::Ipv6 { .. } | WirePdu::RouterKey { .. } | WirePdu::Aspa { .. } => {
-                let r = now(pdu::Payload::read(&mut src)).map_err(|e| Violation::new("spurious-error", site.clone(), e.to_string()))?;
+                let r = match now(pdu::Payload::read(&mut src)) {
+                    Ok(r) => r,
+                    // a reader may refuse a body that denotes no item
+                    Err(_) if invalid_body => return Ok(()),
+                    Err(e) => return Err(Violation::new("spurious-error", site.clone(), e.to_string())),
+                };
                 let pl = match r {
                     Ok(Some(pl)) => pl,
                     _ => return bad("kind", "not a payload".into(), "payload".into()),
@@ -975,24 +980,43 @@ fn accessor_audit(p: &WirePdu) -> Result<(), Violation> {
                     WirePdu::Ipv4 { flags, .. } | WirePdu::Ipv6 { flags, .. } | WirePdu::RouterKey { flags, .. } | WirePdu::Aspa { flags, .. } => *flags,
                     _ => 0,
                 });
-                // to_payload agrees with the independent notion of validity
-                let want = to_item(p);
-                match (pl.to_payload(), want) {
-                    (Ok((a, it)), Some((wa, wit))) => {
-                        let same = match (&it, &wit) {
-                            (payload::Payload::Aspa(x), payload::Payload::Aspa(y)) if wa == Action::Withdraw => x.customer == y.customer,
-                            _ => it == wit,
-                        };
-                        if a != wa || !same {
-                            return bad("to_payload", format!("{:?}/{:?}", a, it), format!("{:?}/{:?}", wa, wit));
+                // to_payload: for a valid item it must give back exactly the
+                // generated fields (validity decided by integer comparison here,
+                // not by the library's constructors); for an invalid body
+                // (gen_invalid_origin) the statement says nothing beyond "no
+                // panic", so the outcome is only counted by the caller.
+                let valid = match p {
+                    WirePdu::Ipv4 { plen, maxlen, .. } => *plen <= 32 && *plen <= *maxlen && *maxlen <= 32,
+                    WirePdu::Ipv6 { plen, maxlen, .. } => *plen <= 128 && *plen <= *maxlen && *maxlen <= 128,
+                    _ => true,
+                };
+                let res = pl.to_payload();
+                if valid {
+                    let (a, it) = match res {
+                        Ok(x) => x,
+                        Err(_) => return bad("to_payload", "rejected".into(), "the item".into()),
+                    };
+                    let want_action = if pl.flags() & 1 == 1 { Action::Announce } else { Action::Withdraw };
+                    eq!("to_payload.action", a, want_action);
+                    let (key, prov) = crate::source::from_payload(&it);
+                    use crate::source::Key;
+                    match (p, &key) {
+                        (WirePdu::Ipv4 { plen, maxlen, addr, asn, .. }, Key::Origin { v6: false, addr: a2, plen: p2, maxlen: m2, asn: n2 }) => {
+                            eq!("to_payload.origin", (*a2 as u32, *p2, *m2, *n2), (*addr, *plen, *maxlen, *asn));
                         }
-                    }
-                    (Err(_), None) => {}
-                    (Ok((a, it)), None) => {
-                        return bad("to_payload", format!("accepted as {:?}/{:?}", a, it), "rejection (prefix length / max length out of range)".into());
-                    }
-                    (Err(_), Some((wa, wit))) => {
-                        return bad("to_payload", "rejected".into(), format!("{:?}/{:?}", wa, wit));
+                        (WirePdu::Ipv6 { plen, maxlen, addr, asn, .. }, Key::Origin { v6: true, addr: a2, plen: p2, maxlen: m2, asn: n2 }) => {
+                            eq!("to_payload.origin", (*a2, *p2, *m2, *n2), (*addr, *plen, *maxlen, *asn));
+                        }
+                        (WirePdu::RouterKey { ski, asn, spki, .. }, Key::RouterKey { ski: s2, asn: n2, spki: k2 }) => {
+                            eq!("to_payload.router_key", (s2, n2, k2), (ski, asn, spki));
+                        }
+                        (WirePdu::Aspa { customer, providers, .. }, Key::Aspa { customer: c2 }) => {
+                            eq!("to_payload.aspa.customer", c2, customer);
+                            if want_action == Action::Announce {
+                                eq!("to_payload.aspa.providers", &prov, providers);
+                            }
+                        }
+                        _ => return bad("to_payload", format!("{:?}", it), wire::describe(p)),
                     }
                 }
             }
@@ -1003,8 +1027,9 @@ fn accessor_audit(p: &WirePdu) -> Result<(), Violation> {
 }
 
 /// Payload PDUs whose body is invalid (prefix length beyond the family, max
-/// length below the prefix length or beyond the family): they must read fine
-/// and be rejected by `to_payload` without a panic.
+/// length below the prefix length or beyond the family). They denote no item,
+/// so the statement only requires that reading and converting them does not
+/// panic (and that the accessors are faithful if the read succeeds).
 fn gen_invalid_origin(t: &mut Tape) -> WirePdu {
     let v = t.choose(3) as u8;
     let flags = t.choose(2) as u8;
@@ -1371,7 +1396,7 @@ impl C07 {
             if p.is_payload() {
                 self.item_roundtrip(&ctx, &p)?;
             }
-            accessor_audit(&p)?;
+            accessor_audit(&p, false)?;
             let enc = p.encode();
             for k in [0usize, 3, 8, enc.len() - 1] {
                 for (ty, entry) in readers_for(&p) {
@@ -1441,13 +1466,13 @@ impl C07 {
                 out.evaluations += 1;
                 counters.bump("item_roundtrips");
             }
-            accessor_audit(p)?;
+            accessor_audit(p, false)?;
             out.evaluations += 1;
             counters.bump("accessor_audits");
         }
         {
             let bad = { let mut t = ctx.tape.lock().unwrap(); gen_invalid_origin(&mut t) };
-            accessor_audit(&bad)?;
+            accessor_audit(&bad, true)?;
             out.evaluations += 1;
             counters.bump("invalid_origin_bodies");
         }
